@@ -41,8 +41,17 @@ def file_item(path, kind):
             k, _, v = line[2:].partition(":")
             meta[k.strip()] = v.strip()
     name = os.path.splitext(os.path.basename(path))[0]
+    goals = [g.strip() for g in meta["goals"].split(",")] if "goals" in meta else None
+    if goals and kind == "corpus":
+        import re as _re
+        names = []
+        for g in goals:
+            for v in _re.findall(r"[A-Za-z_]\w*", g):
+                if v not in names:
+                    names.append(v)
+        goals = more_goals(goals, names, cap=9)
     it = {"id": f"{kind}-{name}", "text": text, "T": None, "origin": path,
-          "goals": [g.strip() for g in meta["goals"].split(",")] if "goals" in meta else None,
+          "goals": goals,
           "points": json.loads(meta["points"]) if "points" in meta else "auto",
           "meta": meta}
     return it
@@ -95,6 +104,12 @@ def val_claims(t, value, base):
     return None, "unknown"
 
 
+def surrogate_ok(P, poly):
+    """a monomial may be claimed on a program with surrogate draws if its degree in the continuous-tainted variables
+    does not exceed the order up to which the surrogates match"""
+    return "tainted" not in P or sum(e for v, e in poly[0][1] if v in P["tainted"]) <= P.get("order", 5)
+
+
 def source_program(item, res, pi):
     """abstract source program for point pi: the generator's own program when there is one (ground truth
     for the text), otherwise Polar's parsed program as exported (then the parser is trusted here and
@@ -104,6 +119,12 @@ def source_program(item, res, pi):
         P = gen.instantiate(item["T"], pt)
         P = dict(P)
         P["s0"] = {k: v for k, v in P["s0"].items()}
+        if absyn.has_cont(P):
+            degs = [sum(e for _v, e in absyn.mono_of(g)[0][1]) for g in (item.get("goals") or [])]
+            try:
+                return absyn.surrogate_program(P, order=5 if max(degs + [0]) > 3 else 3)
+            except absyn.NotAffine:
+                return None
         return P
     if "parsed" not in res:
         if "parsed_cont" in res:
@@ -235,8 +256,8 @@ def b_moments(ctx, key="goals", kind="mom"):
             ctx.note("goal_var_not_in_source")
             continue
         if "tainted" in P:
-            # continuous draws were replaced by laws with the same moments up to order 5
-            if sum(e for v, e in poly[0][1] if v in P["tainted"]) > P.get("order", 5):
+            # continuous draws were replaced by laws with the same moments up to order 3 / 5
+            if not surrogate_ok(P, poly):
                 ctx.note("goal_degree_beyond_surrogate")
                 continue
             ctx.note("claims_on_moment_matched_surrogates")
@@ -640,8 +661,23 @@ def fixed_templates():
     items = []
     for name, P, goals in T:
         items.append({"id": "tmpl-" + name, "text": gen.render(P), "T": P, "params": [], "types": None, "points": [{}],
-                      "goals": goals, "origin": "fixed template " + name})
+                      "goals": more_goals(goals, P["vars"]), "origin": "fixed template " + name})
     return items
+
+
+def more_goals(goals, variables, cap=12):
+    """the listed goals plus mixed second moments of the (few) program variables: many wrong results only show in a
+    product of two variables that the listed goals happen not to contain"""
+    vs = [v for v in variables if not v.startswith("_")][:5]
+    out = list(goals)
+    for i, a in enumerate(vs):
+        for b in vs[i + 1:]:
+            if len(out) >= cap:
+                return out
+            g = f"{a}*{b}"
+            if g not in out and f"{b}*{a}" not in out:
+                out.append(g)
+    return out
 
 
 def b_tail(ctx):
